@@ -2239,6 +2239,21 @@ func (d *Document) parseParagraphProperties(decoder *xml.Decoder, paragraph *Par
 				if err := d.skipElement(decoder, t.Name.Local); err != nil {
 					return err
 				}
+			case "tabs":
+				// 制表位：不跳过，继续读取其中的 w:tab 定义
+				paragraph.Properties.Tabs = &Tabs{}
+			case "tab":
+				// 段落属性中的制表位定义（目录条目的右对齐点线制表位等）
+				if paragraph.Properties.Tabs != nil {
+					paragraph.Properties.Tabs.Tabs = append(paragraph.Properties.Tabs.Tabs, TabDef{
+						Val:    getAttributeValue(t.Attr, "val"),
+						Leader: getAttributeValue(t.Attr, "leader"),
+						Pos:    getAttributeValue(t.Attr, "pos"),
+					})
+				}
+				if err := d.skipElement(decoder, t.Name.Local); err != nil {
+					return err
+				}
 			case "keepNext":
 				// 与下一段保持在一起
 				paragraph.Properties.KeepNext = &KeepNext{Val: getAttributeValue(t.Attr, "val")}
